@@ -201,7 +201,7 @@ def run_case(case, ch: Choices) -> RunResult:
         # (a') the same single files under other legal names: a file named explicitly is read whatever it is called
         if ch.chance("lay.single_file_odd_name", 1, 2):
             names = ch.pick("lay.odd_names", [("api.sdl", "operations.txt"), ("schema.graphql.txt", "queries"), ("schema", "ops.graphql.bak"),
-                                              ("SCHEMA.GQL", "Queries.GraphQL"), ("sch\u00e9ma d\u00e9finitif.graphqls", "requ\u00eates.gql")])
+                                              ("SCHEMA.GQL", "Queries.GraphQL"), ("schema [v2].graphql", "queries[1].graphql"), ("sch*ma.graphql", "what?.gql"), ("sch\u00e9ma d\u00e9finitif.graphqls", "requ\u00eates.gql")])
             root_a2 = os.path.join(base, "a_other_names")
             ma2 = worlds.materialize(world, root_a2, single_file_names=names)
             ra2 = genrun.run_child(root_a2, ma2["argv"], ma2["targets"])
@@ -280,6 +280,13 @@ def run_case(case, ch: Choices) -> RunResult:
             url = URL
             if fault and fault["kind"] == "bad_url":
                 url = fault["url"]
+            elif not (fault and fault["kind"] == "redirect"):
+                # where the endpoint lives is the project's business: another scheme, a loopback name or address, a port, a
+                # path with a query string - what is sent (and with which TLS setting) follows the configuration alone
+                url = ch.pick("remote.url", [URL, URL, URL, "https://schema.test/graphql", "https://localhost:8443/graphql", "https://127.0.0.1/graphql",
+                                             "http://localhost:8000/graphql", "https://api.internal.test:4000/v1/graphql?tenant=a"])
+                if url != URL:
+                    res.bump("remote.endpoint_url.%s" % url.split("/")[2])
             mc = worlds.materialize(world, root_c, remote_url=url, extra_cfg=remote_cfg)
             before = genrun.snapshot(root_c)
             # a conformant endpoint may label its JSON body in several ways (application/graphql-response+json is the
@@ -287,6 +294,7 @@ def run_case(case, ch: Choices) -> RunResult:
             ctype = ch.pick("peer.ctype", ["application/json", "application/json", "application/json; charset=utf-8",
                                            "application/graphql-response+json", "application/graphql-response+json; charset=utf-8", None])
             http = {"sdl": sdl, "fault": fault if fault and fault["kind"] != "bad_url" else None, "content_type": ctype,
+                    "hosts": ["schema.test", "localhost", "127.0.0.1", "api.internal.test"],
                     "ensure_ascii": not ch.chance("peer.raw_unicode", 1, 2),
                     "encoding": ch.pick("peer.encoding", [None, None, None, "utf-8-sig", "utf-16", "utf-32", "latin1-label", "utf-16-le"]),
                     # half of the healthy endpoints only know the June 2018 introspection schema
